@@ -18,6 +18,11 @@ CLAIMED = {
  "C15": ("SetSequence(seq) after every CreateBucket in both arms with seq = Sequence() of the reported bucket, one captured transaction cell re-assigned after an intermediate commit, source flows only into walk -> View and is opened ReadOnly by the CLI, callback/walk errors abort before the final commit", "4 C15"),
  "C18": ("the size handed to file.Truncate is compared with / clamped to db.MaxSize on every path (windows: in db.mmap before mapping), size-limit error raised before remap and before the high-water mark moves and propagated unchanged, DB.MaxSize has Options.MaxSize as its only source", "4 C18"),
  "C20": ("every surgery writer call takes the --output path and is dominated by a successful CopyFile(source, output), the source path is only read, CopyFile refuses an existing destination, raw page writers confined to surgery, rewritten metas re-checksummed and both metas cleared, revert copies the other meta (tabulated) and retargets the page id before writing", "4 C20"),
+ "C04": ("in every exported mutator all effect sites are unreachable on a closed or read-only transaction and no error return follows an effect, the pre-effect validation of each mutator has not shrunk (frozen table), bucket-cache coherence (a cached child is freed or re-homed, never dropped), remap dereferences the writer before unmapping, key-order predicates tabulated over bytes.Compare, bucket header / sequence ownership", "4 C04"),
+ "C05": ("after every raw descent no return precedes an emptiness test of the leaf (first/next/prev/Last/Seek), next/prev agree on re-positioning and on the exhausted position, every loop driven by a cursor advance has an exit depending on the key returned, lower-bound search predicates and branch step-back tabulated", "4 C05"),
+ "C07": ("free-before-drop for node page ids, bucket roots and node-cache removals, no mutation of a bucket from inside its own ForEach/ForEachBucket callback (every call site in the module), freelist pointer redefined and old freelist page freed before the new one is allocated, Bucket.free frees pages and nodes and DeleteBucket orders nested-delete < free < key removal, physical rollback gives pages back", "4 C07"),
+ "C16": ("fail-fast inside the batch's Update closure with the failing index recorded, queued functions only ever run inside safelyCall's recover barrier, only the failing caller gets trySolo / is removed / never sees the sentinel, buffered result channel and batch.run referenced only through its sync.Once", "4 C16"),
+ "C19": ("each corruption class has a detector wired to the error channel (identified by the data tested, with truth tables for the five map/type detectors and the three key-order comparisons), child subtrees checked against their separator bounds, panic becomes a reported error and the channel is always closed, the walk reaches no mutator, CLI counts every error and a positive count reaches os.Exit(1)", "4 C19"),
  "C06": ("write offsets derive only from ids of pages in tx.pages (filled only by tx.allocate from db.allocate: freelist.Allocate or the high-water mark), free-set entry chain (Free makes pages pending only; mergeSpans/Init only from the release / reload paths) under VTA and CHA, frees and rollbacks under the writer's own txid, free-before-allocate in spill, meta slot, file-writer allow-list", "4 C06"),
  "C08": ("every error exit of Commit passes the physical rollback (directly or through commitFreelist's summary), shape of rollback (freelist.Rollback, reload from the committed state chosen by hasSyncedFreelist, close), db.allocate has no error exit after an effect and raises the size-limit error first, no I/O error dropped, no rollback after the meta write was issued (one known finding, demonstrated at runtime in findings/F5)", "4 C08"),
  "C17": ("lock request per GOOS tabulated over exclusive/outcome (exclusive iff read-write, non-blocking, retry until timeout), lock-before-content and flag selection in Open, read-only refuses writers before any state change and never reaches a file writer, read-only mapping protection constants on every GOOS, close always closes the descriptor and Close takes all three locks, CLI inspection commands open ReadOnly", "4 C17"),
